@@ -15,7 +15,7 @@ from ..translate import TranslationError
 from . import c07
 
 PROP = 'C08'
-GENERATED = ['LoadStyles', 'AtomStyles']
+GENERATED = ['LoadStyles', 'AtomStyles', 'LoadSource', 'WriterSource']
 
 
 # ----------------------------------------------------------------------------------------
@@ -95,6 +95,531 @@ def extract_load_tables():
     return out
 
 
+# ----------------------------------------------------------------------------------------
+# translator, part 2: the READER code itself (atomman/load/{atom_data,atom_dump,poscar,table}/load.py)
+# ----------------------------------------------------------------------------------------
+# With `ast`, from /repo's current source: the `if / elif` chains of the two line loops as Lean decision functions
+# (which branch a line selects, in the order of the code), the checks after the first pass of the data-file reader,
+# the atom_style decision, the image-flag decision, the bounding-box inversion as Lean arithmetic, the index of the
+# pp flags, the line numbers and the Cartesian test of the POSCAR reader, the sort key / skipped property / unit
+# decision of the table reader, and normalised-statement pins for what cannot be a Lean definition (pandas calls,
+# the bodies of the branches).  Proofs/C08_Source.lean proves every generated definition equal to the hand model's.
+
+ERR_CLASS = {'ValueError': 'value', 'FileFormatError': 'format', 'FileNotFoundError': 'notfound',
+             'AssertionError': 'assert', 'TypeError': 'type', 'NameError': 'name'}
+
+
+def _lean_chars(s):
+    return '[' + ', '.join("'" + ('\\' + c if c in "'\\" else c) + "'" for c in s) + ']'
+
+
+def _lean_strlit(s):
+    out = []
+    for ch in s:
+        if ch == '\\':
+            out.append('\\\\')
+        elif ch == '"':
+            out.append('\\"')
+        elif ch == '\n':
+            out.append('\\n')
+        elif ch == '\t':
+            out.append('\\t')
+        elif ord(ch) < 32 or ord(ch) > 126:
+            raise TranslationError(f'character {ch!r} in a pinned statement')
+        else:
+            out.append(ch)
+    return '"' + ''.join(out) + '"'
+
+
+def _pin(stmts):
+    return '[' + ',\n   '.join(_lean_strlit(ast.unparse(s)) for s in stmts) + ']'
+
+
+def _fn(tree, name, rel):
+    c = [n for n in tree.body if isinstance(n, ast.FunctionDef) and n.name == name]
+    if len(c) != 1:
+        raise TranslationError(f'{rel}: function {name} not found exactly once')
+    return c[0]
+
+
+def _body(fn):
+    b = fn.body
+    if b and isinstance(b[0], ast.Expr) and isinstance(b[0].value, ast.Constant) and isinstance(b[0].value.value, str):
+        b = b[1:]
+    return b
+
+
+def _is_len_terms(e):
+    return (isinstance(e, ast.Call) and isinstance(e.func, ast.Name) and e.func.id == 'len' and len(e.args) == 1
+            and not e.keywords and isinstance(e.args[0], ast.Name) and e.args[0].id == 'terms')
+
+
+def _line_loop(fn, rel):
+    """the `for i, <line> in enumerate(fp)` loop inside the `with uber_open_rmode(data) as fp` of fn ->
+       (statements before `if len(terms) > 0`, the chain `If` under it)"""
+    withs = [n for n in _body(fn) if isinstance(n, ast.With)]
+    loops = [s for w in withs for s in w.body if isinstance(s, ast.For)]
+    if len(withs) != 1 or len(loops) != 1 or len(withs[0].body) != 1:
+        raise TranslationError(f'{rel}: {fn.name}: expected one `with` holding one `for` loop')
+    w, loop = withs[0], loops[0]
+    if ast.unparse(w.items[0]) != 'uber_open_rmode(data) as fp' or ast.unparse(loop.iter) != 'enumerate(fp)' \
+            or loop.orelse:
+        raise TranslationError(f'{rel}: {fn.name}: the line loop is not `for i, line in enumerate(fp)` over uber_open_rmode(data)')
+    if not (isinstance(loop.target, ast.Tuple) and len(loop.target.elts) == 2 and ast.unparse(loop.target.elts[0]) == 'i'):
+        raise TranslationError(f'{rel}: {fn.name}: loop target')
+    *pre, last = loop.body
+    if not (isinstance(last, ast.If) and not last.orelse and isinstance(last.test, ast.Compare)
+            and _is_len_terms(last.test.left) and len(last.test.ops) == 1 and isinstance(last.test.ops[0], ast.Gt)
+            and ast.unparse(last.test.comparators[0]) == '0'):
+        raise TranslationError(f'{rel}: {fn.name}: the loop body does not end in `if len(terms) > 0:`')
+    if len(last.body) != 1 or not isinstance(last.body[0], ast.If):
+        raise TranslationError(f'{rel}: {fn.name}: `if len(terms) > 0:` does not hold exactly one if / elif chain')
+    return w, loop, pre, last.body[0]
+
+
+def _chain(node, rel):
+    """if / elif / ... -> [(test, body)], refusing a final else"""
+    out = []
+    while True:
+        out.append((node.test, node.body))
+        if not node.orelse:
+            return out
+        if len(node.orelse) == 1 and isinstance(node.orelse[0], ast.If):
+            node = node.orelse[0]
+        else:
+            raise TranslationError(f'{rel}: an if / elif chain ends in an `else` branch')
+
+
+def _cond(e, rel, flags=(), counters=(), positive=()):
+    """a branch condition as a Lean Bool expression over `terms`, boolean flags, Nat counters"""
+    if isinstance(e, ast.BoolOp) and isinstance(e.op, ast.And):
+        return '(' + ' && '.join(_cond(v, rel, flags, counters, positive) for v in e.values) + ')'
+    if isinstance(e, ast.Name) and e.id in flags:
+        return e.id
+    if isinstance(e, ast.Compare) and len(e.ops) == 1 and len(e.comparators) == 1:
+        l, op, r = e.left, e.ops[0], e.comparators[0]
+        if _is_len_terms(l) and isinstance(op, ast.Eq) and isinstance(r, ast.Constant) and type(r.value) is int and r.value >= 0:
+            return f'(terms.length == {r.value})'
+        if (isinstance(l, ast.Subscript) and isinstance(l.value, ast.Name) and l.value.id == 'terms'
+                and isinstance(l.slice, ast.Constant) and type(l.slice.value) is int and l.slice.value >= 0
+                and isinstance(op, ast.Eq) and isinstance(r, ast.Constant) and isinstance(r.value, str)):
+            return f'termIs terms {l.slice.value} {_lean_chars(r.value)}'
+        if isinstance(l, ast.Name) and l.id in counters and isinstance(op, ast.Eq) and isinstance(r, ast.Constant) \
+                and type(r.value) is int and r.value >= 0:
+            return f'({l.id} == {r.value})'
+        if isinstance(l, ast.Name) and l.id in positive and isinstance(op, ast.Gt) and ast.unparse(r) == '0':
+            return f'decide (0 < {l.id})'
+    raise TranslationError(f'{rel}: branch condition `{ast.unparse(e)}` is outside the translated subset')
+
+
+def _ifchain_lean(conds, none_value, indent='  '):
+    L = []
+    for k, c in enumerate(conds):
+        L.append(f'{indent}{"if" if k == 0 else "else if"} {c} then {k}')
+    L.append(f'{indent}else {none_value}')
+    return '\n'.join(L)
+
+
+def _arith(e, rel, names):
+    """straight-line arithmetic over Rat: names, float constants, + -, min / max of a tuple"""
+    if isinstance(e, ast.Name) and e.id in names:
+        return e.id
+    if isinstance(e, ast.Constant) and type(e.value) in (int, float):
+        q = Fraction(e.value)
+        return f'({q.numerator} : Rat)' if q.denominator == 1 else f'(({q.numerator} : Rat) / {q.denominator})'
+    if isinstance(e, ast.BinOp) and isinstance(e.op, (ast.Add, ast.Sub)):
+        return f'({_arith(e.left, rel, names)} {"+" if isinstance(e.op, ast.Add) else "-"} {_arith(e.right, rel, names)})'
+    if isinstance(e, ast.Call) and isinstance(e.func, ast.Name) and e.func.id in ('min', 'max') and len(e.args) == 1 \
+            and not e.keywords and isinstance(e.args[0], (ast.Tuple, ast.List)) and e.args[0].elts:
+        return f'{e.func.id}L [' + ', '.join(_arith(x, rel, names) for x in e.args[0].elts) + ']'
+    raise TranslationError(f'{rel}: expression `{ast.unparse(e)}` is outside the translated arithmetic')
+
+
+def _raise_class(stmts, rel):
+    if len(stmts) == 1 and isinstance(stmts[0], ast.Raise) and isinstance(stmts[0].exc, ast.Call) \
+            and isinstance(stmts[0].exc.func, ast.Name) and stmts[0].exc.func.id in ERR_CLASS:
+        return ERR_CLASS[stmts[0].exc.func.id]
+    raise TranslationError(f'{rel}: expected a single `raise <known error>(...)`, found `{ast.unparse(stmts[0])[:60]}`')
+
+
+def _is_none_test(e, rel, allowed):
+    """`a is None` / `a is None or b is None` -> list of names"""
+    vals = e.values if isinstance(e, ast.BoolOp) and isinstance(e.op, ast.Or) else [e]
+    out = []
+    for v in vals:
+        if isinstance(v, ast.Compare) and isinstance(v.left, ast.Name) and v.left.id in allowed and len(v.ops) == 1 \
+                and isinstance(v.ops[0], ast.Is) and isinstance(v.comparators[0], ast.Constant) \
+                and v.comparators[0].value is None:
+            out.append(v.left.id)
+        else:
+            raise TranslationError(f'{rel}: check `{ast.unparse(e)}` is outside the translated subset')
+    return out
+
+
+def translate_data_source(L):
+    rel = 'atomman/load/atom_data/load.py'
+    tree = ast.parse(cm.source(rel))
+    fp = _fn(tree, 'firstpass', rel)
+    w, loop, pre, chain_if = _line_loop(fp, rel)
+    chain = _chain(chain_if, rel)
+    conds = [_cond(t, rel, flags=('firstatoms',), positive=('num_masses_to_read',)) for t, _ in chain]
+    L += ['/-! ### atomman/load/atom_data/load.py -/', '',
+          f'/-- `firstpass`: which branch of the `if / elif` chain under `if len(terms) > 0` a line selects, in the order of',
+          f'    the code ({len(conds)} = no branch). -/',
+          'def firstpassBranch (terms : List (List Char)) (firstatoms : Bool) (num_masses_to_read : Nat) : Nat :=',
+          _ifchain_lean(conds, len(conds)), '',
+          '/-- the statements of the loop before the chain (decoding, cutting at `#`, `split()`), normalised. -/',
+          f'def firstpassSplit : List String :=\n  {_pin(pre)}', '',
+          '/-- the bodies of the branches, normalised, in the order of the chain. -/',
+          'def firstpassBodies : List (List String) :=\n  [' + ',\n   '.join(_pin(b) for _, b in chain) + ']', '']
+    # the checks after the loop, up to the construction of the box
+    body = _body(fp)
+    after = body[body.index(w) + 1:]
+    checks = []
+    k = 0
+    allowed = ('natoms', 'xlo', 'xhi', 'ylo', 'yhi', 'zlo', 'zhi', 'atomsstart')
+    while k < len(after) and isinstance(after[k], ast.If):
+        st = after[k]
+        if st.orelse:
+            raise TranslationError(f'{rel}: a check after the first pass has an else branch')
+        cls = _raise_class(st.body, rel)
+        if ast.unparse(st.test) == 'i == 0':
+            checks.append(('short', cls))
+        else:
+            checks.append(('(' + ' || '.join(_is_none_test(st.test, rel, allowed)) + ')', cls))
+        k += 1
+    if not checks:
+        raise TranslationError(f'{rel}: no checks found after the first pass')
+    L += ['/-- the checks after the loop of `firstpass` in the order of the code: the class of the first error raised',
+          '    (`short`: `i == 0`; the other arguments say that the variable is still `None`). -/',
+          'def firstpassCheck (short natoms xlo xhi ylo yhi zlo zhi atomsstart : Bool) : Option String :=']
+    for j, (c, cls) in enumerate(checks):
+        L.append(f'  {"if" if j == 0 else "else if"} {c} then some "{cls}"')
+    L += ['  else none', '',
+          '/-- what follows the checks (box, atoms, system, the returned parameters), normalised. -/',
+          f'def firstpassTail : List String :=\n  {_pin(after[k:])}', '',
+          '/-- the initial values of the variables of `firstpass`, normalised. -/',
+          f'def firstpassInit : List String :=\n  {_pin([s for s in body[:body.index(w)] if isinstance(s, ast.Assign)])}', '']
+    # load(): the atom_style decision
+    ld = _fn(tree, 'load', rel)
+    sty = [s for s in _body(ld) if isinstance(s, ast.If) and ast.unparse(s.test) == 'atom_style is None']
+    if len(sty) != 1:
+        raise TranslationError(f'{rel}: load: the atom_style decision was not found')
+    st = sty[0]
+    ok = (len(st.body) == 1 and isinstance(st.body[0], ast.If) and ast.unparse(st.body[0].test) == "params['atom_style'] is None"
+          and len(st.body[0].body) == 1 and isinstance(st.body[0].body[0], ast.Assign)
+          and ast.unparse(st.body[0].body[0].targets[0]) == 'atom_style' and isinstance(st.body[0].body[0].value, ast.Constant)
+          and isinstance(st.body[0].body[0].value.value, str)
+          and len(st.body[0].orelse) == 1 and ast.unparse(st.body[0].orelse[0]) == "atom_style = params['atom_style']"
+          and len(st.orelse) == 1 and isinstance(st.orelse[0], ast.If) and not st.orelse[0].orelse
+          and ast.unparse(st.orelse[0].test) == "params['atom_style'] is not None and atom_style != params['atom_style']")
+    if not ok:
+        raise TranslationError(f'{rel}: load: the atom_style decision has another structure')
+    default = st.body[0].body[0].value.value
+    cls = _raise_class(st.orelse[0].body, rel)
+    L += ['/-- `load`: the atom_style used, from the argument and the comment of the `Atoms` line. -/',
+          'def chooseStyle (arg hint : Option String) : Except String String :=',
+          '  match arg with',
+          f'  | none => match hint with | none => .ok {_lean_strlit(default)} | some h => .ok h',
+          f'  | some a => match hint with | some h => if a != h then .error "{cls}" else .ok a | none => .ok a', '',
+          '/-- the order of the calls of `load`, normalised (stream read first, first pass, comments removed, tables). -/',
+          f'def dataLoadCalls : List String :=\n  {_pin([s for s in _body(ld) if s is not st])}', '']
+    # read_atoms: the image-flag decision
+    ra = _fn(tree, 'read_atoms', rel)
+    outer = [s for s in _body(ra) if isinstance(s, ast.If)]
+    if len(outer) != 1 or ast.unparse(outer[0].test) != 'atomsstart is not None' or outer[0].orelse:
+        raise TranslationError(f'{rel}: read_atoms: `if atomsstart is not None` not found')
+    inner = [s for s in outer[0].body if isinstance(s, ast.If)]
+    if len(inner) != 1:
+        raise TranslationError(f'{rel}: read_atoms: the column-count decision was not found')
+    ch = _chain(inner[0], rel)
+    if len(ch) != 2:
+        raise TranslationError(f'{rel}: read_atoms: the column-count decision has {len(ch)} branches')
+    t0, t1 = ch[0][0], ch[1][0]
+    if not (isinstance(t0, ast.Compare) and ast.unparse(t0.left) == 'atomscolumns' and isinstance(t0.ops[0], ast.Eq)
+            and isinstance(t0.comparators[0], ast.BinOp) and isinstance(t0.comparators[0].op, ast.Add)
+            and ast.unparse(t0.comparators[0].left) == 'ncols' and isinstance(t0.comparators[0].right, ast.Constant)
+            and type(t0.comparators[0].right.value) is int and t0.comparators[0].right.value >= 0):
+        raise TranslationError(f'{rel}: read_atoms: `{ast.unparse(t0)}` is outside the translated subset')
+    if ast.unparse(t1) not in ('ncols != atomscolumns', 'atomscolumns != ncols'):
+        raise TranslationError(f'{rel}: read_atoms: `{ast.unparse(t1)}` is outside the translated subset')
+    cls = _raise_class(ch[1][1], rel)
+    L += ['/-- `read_atoms`: 0 = image flags follow the columns of the style, 1 = wrong number of columns (the error class',
+          '    is `readAtomsError`), 2 = exactly the columns of the style. -/',
+          'def readAtomsCase (atomscolumns ncols : Nat) : Nat :=',
+          f'  if atomscolumns == ncols + {t0.comparators[0].right.value} then 0 else if ncols != atomscolumns then 1 else 2',
+          f'def readAtomsError : String := "{cls}"', '',
+          '/-- the table read of `read_atoms` and the image-flag read / sort / shift, normalised. -/',
+          f'def readAtomsTable : List String :=\n  {_pin([s for s in outer[0].body if s is not inner[0]])}',
+          f'def readAtomsFlags : List String :=\n  {_pin(ch[0][1])}', '',
+          '/-- `read_mass`, `remove_comments`, `countreadcolumns`, `read_velocities`, normalised. -/',
+          f'def readMass : List String :=\n  {_pin(_body(_fn(tree, "read_mass", rel)))}',
+          f'def removeComments : List String :=\n  {_pin(_body(_fn(tree, "remove_comments", rel)))}',
+          f'def countReadColumns : List String :=\n  {_pin(_body(_fn(tree, "countreadcolumns", rel)))}',
+          f'def readVelocities : List String :=\n  {_pin(_body(_fn(tree, "read_velocities", rel)))}', '']
+
+
+def translate_dump_source(L):
+    rel = 'atomman/load/atom_dump/load.py'
+    tree = ast.parse(cm.source(rel))
+    ld = _fn(tree, 'load', rel)
+    w, loop, pre, chain_if = _line_loop(ld, rel)
+    chain = _chain(chain_if, rel)
+    if len(chain) < 2:
+        raise TranslationError(f'{rel}: header chain too short')
+    *outer, (item_test, item_body) = chain
+    oconds = [_cond(t, rel, flags=('readnatoms', 'readtimestep'), counters=('bcount',)) for t, _ in outer]
+    item_cond = _cond(item_test, rel)
+    if len(item_body) != 1 or not isinstance(item_body[0], ast.If):
+        raise TranslationError(f'{rel}: the ITEM: branch does not hold exactly one if / elif chain')
+    inner = _chain(item_body[0], rel)
+    iconds = [_cond(t, rel) for t, _ in inner]
+    n_o, n_i = len(oconds), len(iconds)
+    L += ['/-! ### atomman/load/atom_dump/load.py -/', '',
+          '/-- the header loop: which branch a line selects, in the order of the code: the pending reads and the three box',
+          f'    lines ({n_o} branches), then the `ITEM:` lines by their second term ({n_i} kinds, {n_o + n_i} = another ITEM),',
+          f'    {n_o + n_i + 1} = no branch. -/',
+          'def dumpBranch (terms : List (List Char)) (readnatoms readtimestep : Bool) (bcount : Nat) : Nat :=']
+    for k, c in enumerate(oconds):
+        L.append(f'  {"if" if k == 0 else "else if"} {c} then {k}')
+    L.append(f'  else if {item_cond} then')
+    for k, c in enumerate(iconds):
+        L.append(f'    {"if" if k == 0 else "else if"} {c} then {n_o + k}')
+    L += [f'    else {n_o + n_i}', f'  else {n_o + n_i + 1}', '',
+          '/-- the bodies of the branches, normalised (the box-line branches without the inversion, which is `bboxInvert`). -/']
+    # the bounding-box inversion: the assignments to xlo / xhi / ylo / yhi under `if len(terms) == 3` of the third box line
+    inv = None
+    bodies = []
+    for t, b in outer:
+        kept = []
+        for s in b:
+            if isinstance(s, ast.If) and ast.unparse(s.test) == 'len(terms) == 3' and not s.orelse:
+                conv = [x for x in s.body if isinstance(x, ast.Assign) and len(x.targets) == 1
+                        and isinstance(x.targets[0], ast.Name) and x.targets[0].id in ('xlo', 'xhi', 'ylo', 'yhi')]
+                if conv:
+                    if inv is not None:
+                        raise TranslationError(f'{rel}: bounds are inverted in two places')
+                    inv = conv
+                    rest = [x for x in s.body if x not in conv]
+                    kept.append('if len(terms) == 3: ' + '; '.join(ast.unparse(x) for x in rest))
+                    continue
+            kept.append(ast.unparse(s))
+        bodies.append(kept)
+    if inv is None or sorted(x.targets[0].id for x in inv) != ['xhi', 'xlo', 'yhi', 'ylo']:
+        raise TranslationError(f'{rel}: the conversion of the bounding box to xlo, xhi, ylo, yhi was not found')
+    L.append('def dumpBodies : List (List String) :=\n  [' + ',\n   '.join(
+        '[' + ', '.join(_lean_strlit(x) for x in b) + ']' for b in bodies) + ']')
+    L.append('def dumpItemBodies : List (List String) :=\n  [' + ',\n   '.join(_pin(b) for _, b in inner) + ']')
+    names = ('xlo', 'xhi', 'ylo', 'yhi', 'xy', 'xz', 'yz')
+    L += ['', '/-- "Convert from max, min to hi, lo": the statements in the order of the code. -/',
+          'def bboxInvert (xlo xhi ylo yhi xy xz yz : Rat) : Rat × Rat × Rat × Rat :=']
+    for x in inv:
+        L.append(f'  let {x.targets[0].id} := {_arith(x.value, rel, names)}')
+    L += ['  (xlo, xhi, ylo, yhi)', '']
+    # the pp flags of the BOX line
+    box = [b for t, b in inner if "'BOX'" in ast.unparse(t)]
+    if len(box) != 1:
+        raise TranslationError(f'{rel}: the ITEM: BOX branch was not found')
+    loops = [s for s in box[0] if isinstance(s, ast.For)]
+    ok = (len(loops) == 1 and ast.unparse(loops[0].iter) == 'range(3)' and ast.unparse(loops[0].target) == 'i'
+          and len(loops[0].body) == 1 and isinstance(loops[0].body[0], ast.If) and not loops[0].body[0].orelse
+          and ast.unparse(loops[0].body[0].body[0]) == 'pbc[i] = False')
+    if ok:
+        t = loops[0].body[0].test
+        ok = (isinstance(t, ast.Compare) and isinstance(t.ops[0], ast.NotEq) and isinstance(t.left, ast.Subscript)
+              and ast.unparse(t.left.value) == 'terms' and isinstance(t.comparators[0], ast.Constant)
+              and isinstance(t.comparators[0].value, str))
+    if not ok:
+        raise TranslationError(f'{rel}: the loop over the three boundary flags has another structure')
+
+    def idx(e):
+        if isinstance(e, ast.Name) and e.id == 'i':
+            return 'i'
+        if _is_len_terms(e):
+            return '(terms.length : Int)'
+        if isinstance(e, ast.Constant) and type(e.value) is int:
+            return f'({e.value} : Int)'
+        if isinstance(e, ast.BinOp) and isinstance(e.op, (ast.Add, ast.Sub)):
+            return f'({idx(e.left)} {"+" if isinstance(e.op, ast.Add) else "-"} {idx(e.right)})'
+        raise TranslationError(f'{rel}: index `{ast.unparse(e)}` of a boundary flag is outside the translated subset')
+    L += ['/-- `ITEM: BOX BOUNDS …`: is direction `i` periodic (Python index, negative ones count from the end). -/',
+          'def ppFlag (terms : List (List Char)) (i : Int) : Bool :=',
+          f'  pyGet terms {idx(t.left.slice)} == some {_lean_chars(t.comparators[0].value)}', '',
+          f'def dumpBoxBody : List String :=\n  {_pin([s for s in box[0] if s is not loops[0]])}', '']
+    # after the loop: position variants
+    body = _body(ld)
+    after = body[body.index(w) + 1:]
+    fl = [s for s in after if isinstance(s, ast.For) and ast.unparse(s.iter) == 'prop_info']
+    if len(fl) != 1:
+        raise TranslationError(f'{rel}: the loop over prop_info that renames the position variants was not found')
+    lists = [n for n in ast.walk(fl[0]) if isinstance(n, ast.Compare) and isinstance(n.ops[0], ast.In)
+             and isinstance(n.comparators[0], (ast.List, ast.Tuple))]
+    if len(lists) != 1 or not all(isinstance(x, ast.Constant) and isinstance(x.value, str) for x in lists[0].comparators[0].elts):
+        raise TranslationError(f'{rel}: the list of position variants was not found')
+    L += ['/-- the property names that are stored as `pos`. -/',
+          'def posLike : List String := [' + ', '.join(_lean_strlit(x.value) for x in lists[0].comparators[0].elts) + ']', '',
+          '/-- the initial values, the statements after the header loop (box, atoms, system, `process_prop_info`, the loop over',
+          '    the position variants, the table read) and `matchprops`, normalised. -/',
+          f'def dumpInit : List String :=\n  {_pin([s for s in body[:body.index(w)] if isinstance(s, ast.Assign)])}',
+          f'def dumpSplit : List String :=\n  {_pin(pre)}',
+          f'def dumpTail : List String :=\n  {_pin(after)}',
+          f'def matchprops : List String :=\n  {_pin(_body(_fn(tree, "matchprops", rel)))}', '']
+
+
+def translate_poscar_source(L):
+    rel = 'atomman/load/poscar/load.py'
+    tree = ast.parse(cm.source(rel))
+    ld = _fn(tree, 'load', rel)
+    body = _body(ld)
+
+    def line_no(e, what):
+        """lines[k] possibly inside float(...), .split(), np.array(..., dtype=...) -> k"""
+        subs = [n for n in ast.walk(e) if isinstance(n, ast.Subscript) and ast.unparse(n.value) == 'lines']
+        if len(subs) != 1 or not (isinstance(subs[0].slice, ast.Constant) and type(subs[0].slice.value) is int
+                                  and subs[0].slice.value >= 0):
+            raise TranslationError(f'{rel}: {what}: expected one `lines[<number>]` in `{ast.unparse(e)}`')
+        return subs[0].slice.value
+
+    assigns = {ast.unparse(s.targets[0]): s.value for s in body if isinstance(s, ast.Assign) and len(s.targets) == 1}
+    for k in ('box_scale', 'avect', 'bvect', 'cvect'):
+        if k not in assigns:
+            raise TranslationError(f'{rel}: assignment to {k} not found')
+    if ast.unparse(assigns['box_scale']) != f'float(lines[{line_no(assigns["box_scale"], "box_scale")}])':
+        raise TranslationError(f'{rel}: box_scale is not float(lines[k])')
+    lat = []
+    for k in ('avect', 'bvect', 'cvect'):
+        n = line_no(assigns[k], k)
+        if ast.unparse(assigns[k]) != f"np.array(lines[{n}].split(), dtype='float64') * box_scale":
+            raise TranslationError(f'{rel}: {k} is not np.array(lines[k].split(), dtype=float64) * box_scale')
+        lat.append(n)
+    tries = [s for s in body if isinstance(s, ast.Try) and any('typenums' in ast.unparse(x) for x in s.body)]
+    if len(tries) != 1 or len(tries[0].handlers) != 1 or tries[0].handlers[0].type is not None or tries[0].orelse \
+            or tries[0].finalbody:
+        raise TranslationError(f'{rel}: the try / bare except that decides whether there is a symbols line was not found')
+
+    def layout(stmts, what):
+        d = {}
+        for s in stmts:
+            if not (isinstance(s, ast.Assign) and len(s.targets) == 1 and isinstance(s.targets[0], ast.Name)):
+                raise TranslationError(f'{rel}: {what}: `{ast.unparse(s)}` is outside the translated subset')
+            d[s.targets[0].id] = s.value
+        if sorted(d) != ['elements', 'start_i', 'style', 'typenums']:
+            raise TranslationError(f'{rel}: {what}: assigns {sorted(d)}')
+        if ast.unparse(d['typenums']) != f"np.array(lines[{line_no(d['typenums'], what)}].split(), dtype='int64')":
+            raise TranslationError(f'{rel}: {what}: typenums')
+        if ast.unparse(d['style']) != f"lines[{line_no(d['style'], what)}]":
+            raise TranslationError(f'{rel}: {what}: style')
+        if not (isinstance(d['start_i'], ast.Constant) and type(d['start_i'].value) is int):
+            raise TranslationError(f'{rel}: {what}: start_i')
+        return d
+    d0 = layout(tries[0].body, 'try')
+    d1 = layout(tries[0].handlers[0].body, 'except')
+    if ast.unparse(d0['elements']) != '[None for n in range(len(typenums))]':
+        raise TranslationError(f'{rel}: try: elements')
+    if ast.unparse(d1['elements']) != f"lines[{line_no(d1['elements'], 'except')}].split()":
+        raise TranslationError(f'{rel}: except: elements')
+    order0 = [s.targets[0].id for s in tries[0].body]
+    if order0[0] != 'typenums':
+        raise TranslationError(f'{rel}: try: the integer conversion of the counts is not the first statement')
+    cart = [s for s in body if isinstance(s, ast.If) and isinstance(s.test, ast.Compare) and isinstance(s.test.ops[0], ast.In)
+            and ast.unparse(s.test.left) == 'style[0]']
+    if len(cart) != 1 or not (isinstance(cart[0].test.comparators[0], ast.Constant)
+                              and isinstance(cart[0].test.comparators[0].value, str)
+                              and ast.unparse(cart[0].body[0]) == 'scale = False' and len(cart[0].orelse) == 1
+                              and ast.unparse(cart[0].orelse[0]) == 'scale = True'):
+        raise TranslationError(f'{rel}: the Cartesian / Direct test `style[0] in ...` was not found')
+    times = [s for s in body if isinstance(s, ast.If) and ast.unparse(s.test) == 'scale is False']
+    if len(times) != 1 or times[0].orelse or [ast.unparse(x) for x in times[0].body] != ['pos *= box_scale']:
+        raise TranslationError(f'{rel}: `if scale is False: pos *= box_scale` was not found')
+    loops = [s for s in body if isinstance(s, ast.For) and ast.unparse(s.iter) == 'range(natoms)']
+    if len(loops) != 1:
+        raise TranslationError(f'{rel}: the loop over the coordinate lines was not found')
+    sl = [n for n in ast.walk(loops[0]) if isinstance(n, ast.Subscript) and ast.unparse(n.value) == 'terms'
+          and isinstance(n.slice, ast.Slice)]
+    if len(sl) != 1 or sl[0].slice.lower is not None or sl[0].slice.step is not None \
+            or not (isinstance(sl[0].slice.upper, ast.Constant) and type(sl[0].slice.upper.value) is int):
+        raise TranslationError(f'{rel}: the coordinate terms `terms[:k]` were not found')
+    L += ['/-! ### atomman/load/poscar/load.py -/', '',
+          '/-- line numbers: the scale; the three cell vectors; without a symbols line (counts, coordinate style, first',
+          '    coordinate line); with one (symbols, counts, coordinate style, first coordinate line). -/',
+          f'def poscarScaleLine : Nat := {line_no(assigns["box_scale"], "box_scale")}',
+          f'def poscarLatticeLines : List Nat := {lat}',
+          f'def poscarNoSymbols : Nat × Nat × Nat := ({line_no(d0["typenums"], "try")}, {line_no(d0["style"], "try")}, {d0["start_i"].value})',
+          f'def poscarWithSymbols : Nat × Nat × Nat × Nat := ({line_no(d1["elements"], "except")}, '
+          f'{line_no(d1["typenums"], "except")}, {line_no(d1["style"], "except")}, {d1["start_i"].value})',
+          f'def poscarCoordTerms : Nat := {sl[0].slice.upper.value}', '',
+          '/-- `style[0] in …`: the coordinates are Cartesian (and are then multiplied by the scale). -/',
+          'def poscarIsCartesian (style : List Char) : Bool :=',
+          f'  match style with | c :: _ => {_lean_chars(cart[0].test.comparators[0].value)}.contains c | [] => false', '',
+          '/-- the other statements of the POSCAR reader, normalised. -/',
+          f'def poscarAtype : List String :=\n  {_pin([s for s in body if (isinstance(s, ast.Assign) and ast.unparse(s.targets[0]) == "atype") or (isinstance(s, ast.For) and "atype" in ast.unparse(s))])}',
+          f'def poscarCoordLoop : List String :=\n  {_pin(loops)}',
+          f'def poscarSymbols : List String :=\n  {_pin([s for s in body if isinstance(s, ast.If) and ast.unparse(s.test) == "symbols is None"])}',
+          f'def poscarSystem : List String :=\n  {_pin([s for s in body if "System(" in ast.unparse(s) or "Atoms(" in ast.unparse(s) or "Box(" in ast.unparse(s) or "natoms = " in ast.unparse(s)[:9]])}', '']
+
+
+def translate_table_source(L):
+    rel = 'atomman/load/table/load.py'
+    tree = ast.parse(cm.source(rel))
+    ld = _fn(tree, 'load', rel)
+    body = _body(ld)
+    srt = [s for s in body if isinstance(s, ast.If) and isinstance(s.test, ast.Compare) and isinstance(s.test.ops[0], ast.In)
+           and ast.unparse(s.test.comparators[0]) == 'df']
+    if len(srt) != 1 or srt[0].orelse or len(srt[0].body) != 1 or not isinstance(srt[0].test.left, ast.Constant):
+        raise TranslationError(f'{rel}: `if \'id\' in df: df = df.sort_values(\'id\')` was not found')
+    key = srt[0].test.left.value
+    if ast.unparse(srt[0].body[0]) != f'df = df.sort_values({key!r})':
+        raise TranslationError(f'{rel}: the table is not sorted by the column that is tested for')
+    loops = [s for s in body if isinstance(s, ast.For) and ast.unparse(s.iter) == 'prop_info' and 'view' in ast.unparse(s)]
+    if len(loops) != 1:
+        raise TranslationError(f'{rel}: the loop over the properties was not found')
+    lp = loops[0]
+    skip = [s for s in lp.body if isinstance(s, ast.If) and [ast.unparse(x) for x in s.body] == ['continue']]
+    if len(skip) != 1 or not (isinstance(skip[0].test, ast.Compare) and ast.unparse(skip[0].test.left) == 'pname'
+                              and isinstance(skip[0].test.ops[0], ast.Eq) and isinstance(skip[0].test.comparators[0], ast.Constant)):
+        raise TranslationError(f'{rel}: `if pname == \'a_id\': continue` was not found')
+    conv = [s for s in lp.body if isinstance(s, ast.If) and ast.unparse(s.test) == "prop['unit'] is not None"]
+    ok = (len(conv) == 1 and not conv[0].orelse and len(conv[0].body) == 1 and isinstance(conv[0].body[0], ast.If)
+          and isinstance(conv[0].body[0].test, ast.Compare) and ast.unparse(conv[0].body[0].test.left) == "prop['unit']"
+          and isinstance(conv[0].body[0].test.ops[0], ast.Eq) and isinstance(conv[0].body[0].test.comparators[0], ast.Constant)
+          and [ast.unparse(x) for x in conv[0].body[0].body] == ['value = system.box.position_relative_to_cartesian(value)']
+          and [ast.unparse(x) for x in conv[0].body[0].orelse] == ["value = uc.set_in_units(value, prop['unit'])"])
+    if not ok:
+        raise TranslationError(f'{rel}: the unit / scaled decision has another structure')
+    L += ['/-! ### atomman/load/table/load.py -/', '',
+          f'def tableSortKey : String := {_lean_strlit(key)}',
+          f'def tableSkippedProp : String := {_lean_strlit(skip[0].test.comparators[0].value)}',
+          '/-- the conversion of a column group: 0 = none, 1 = box-relative to Cartesian, 2 = `uc.set_in_units`. -/',
+          'def tableConv (unit : Option String) : Nat :=',
+          f'  match unit with | none => 0 | some u => if u == {_lean_strlit(conv[0].body[0].test.comparators[0].value)} then 1 else 2', '',
+          '/-- the statements of the table reader, normalised (pandas call, system, the loop over the properties). -/',
+          f'def tableBody : List String :=\n  {_pin(body)}', '']
+
+
+def translate_source():
+    L = ['/- GENERATED by harness/props/c08.py (translate_source) from atomman/load/atom_data/load.py,',
+         '   atomman/load/atom_dump/load.py, atomman/load/poscar/load.py, atomman/load/table/load.py — do not edit. -/',
+         'namespace Atomman.Gen.LoadSource', '',
+         '/-- `terms[k] == w` for `k` inside the list. -/',
+         'def termIs (terms : List (List Char)) (k : Nat) (w : List Char) : Bool := terms[k]? == some w', '',
+         '/-- `terms[k]` with Python\'s negative indices. -/',
+         'def pyGet (terms : List (List Char)) (k : Int) : Option (List Char) :=',
+         '  if 0 ≤ k then terms[k.toNat]? else if 0 ≤ k + terms.length then terms[(k + terms.length).toNat]? else none', '',
+         '/-- Python `min(tuple)` / `max(tuple)`: from the left, the earlier element stays on ties. -/',
+         'def minL : List Rat → Rat',
+         '  | [] => 0',
+         '  | a :: r => r.foldl (fun a b => if b < a then b else a) a',
+         'def maxL : List Rat → Rat',
+         '  | [] => 0',
+         '  | a :: r => r.foldl (fun a b => if a < b then b else a) a', '']
+    translate_data_source(L)
+    translate_dump_source(L)
+    translate_poscar_source(L)
+    translate_table_source(L)
+    L.append('end Atomman.Gen.LoadSource\n')
+    return '\n'.join(L)
+
+
 def translate():
     t = extract_load_tables()
     L = ['/- GENERATED by harness/props/c08.py from atomman/load/atom_data/{atoms,velocities}_prop_info.py and',
@@ -118,7 +643,7 @@ def translate():
     L.append(f'def dumpStandardLjOk : Bool := {"true" if t["dump_lj_ok"] else "false"}')
     L.append('')
     L.append('end Atomman.Gen.LoadStyles\n')
-    out = {'LoadStyles': '\n'.join(L)}
+    out = {'LoadStyles': '\n'.join(L), 'LoadSource': translate_source()}
     out.update(c07.translate())          # the writer's tables the C07 model (imported by C08) is built on
     return out
 
@@ -149,19 +674,34 @@ THEOREMS = [
     'C08.dump_target_holds_content', 'C08.load_dump_roundtrip_any_route', 'C08.dump_twice_last_wins',
     'C08.dump_returns_iff_no_target', 'C08.source_refusals', 'C08.sourceTextRead_eq', 'C08.sourceTextRead_textFile',
     'C08.load_dump_roundtrip_poscar_any_route',
+    # end to end (Proofs/C08_Compose.lean): header theorems joined with the table reader in closed form, any id order
+    'C08.load_dump_roundtrip_dump_values', 'C08.table_values_of_rows_sorted', 'C08.loadDumpCore_given',
+    'C08.tableLoad_frame', 'C08.load_dump_roundtrip_data_values', 'C08.atoms_section_values', 'C08.applyFlags_other',
+    'C08.loadDataCore_values', 'C08.tableLoad_other', 'C08.dataParts_rows_length',
+    # source tie (Proofs/C08_Source.lean): definitions regenerated from the reader code = the model, for all inputs
+    'C08.gen_firstpassBranch_eq_model', 'C08.fpStepT_eq_act', 'C08.fpStepT_eq_gen', 'C08.gen_firstpassCheck_eq_model',
+    'C08.gen_chooseStyle_eq_model', 'C08.readAtoms_eq_gen', 'C08.gen_dumpBranch_eq_model', 'C08.gen_bboxInvert_eq_model',
+    'C08.gen_ppFlag_eq_model', 'C08.dsCore_eq_gen', 'C08.gen_posLike_eq_model', 'C08.gen_poscarIsCartesian_eq_model',
+    'C08.gen_poscarLayout_eq_model', 'C08.gen_tableKeys_eq_model', 'C08.idIndex_eq_gen',
+    # ... and normalised-statement pins for what is not a Lean definition
+    'C08.gen_firstpassSplit_pinned', 'C08.gen_firstpassBodies_pinned', 'C08.gen_firstpassTail_pinned',
+    'C08.gen_firstpassInit_pinned', 'C08.gen_dataLoadCalls_pinned', 'C08.gen_readAtomsTable_pinned',
+    'C08.gen_readAtomsFlags_pinned', 'C08.gen_readMass_pinned', 'C08.gen_removeComments_pinned',
+    'C08.gen_countReadColumns_pinned', 'C08.gen_readVelocities_pinned', 'C08.gen_dumpBodies_pinned',
+    'C08.gen_dumpItemBodies_pinned', 'C08.gen_dumpBoxBody_pinned', 'C08.gen_dumpInit_pinned', 'C08.gen_dumpSplit_pinned',
+    'C08.gen_dumpTail_pinned', 'C08.gen_matchprops_pinned', 'C08.gen_poscarAtype_pinned', 'C08.gen_poscarCoordLoop_pinned',
+    'C08.gen_poscarSymbols_pinned', 'C08.gen_poscarSystem_pinned', 'C08.gen_tableBody_pinned',
 ]
 PARTIAL = {
-    'load_dump_roundtrip (data, dump, table)': 'proved through lexing, the header loop / first pass (every header number at '
-        'its printed value times the length unit, bounding-box inversion, pp flags, atom_style comment, section offsets) '
-        'and the numeric table (printed values, sorted by id: tableLoad_rowsDoc_sorted); the last step - column groups -> '
-        'named properties with unit factors (assignCols) and, for data files, the image-flag shift (applyFlags) - is the '
-        'model function applied to exactly those printed values.  For the generic table the composition is done: '
-        'load_dump_roundtrip_table_values gives every loaded property of a written table in closed form (shape of its '
-        'prop_info entry, printed values of its column group, times the unit factor) for columns without conversion or '
-        'with a unit factor; its hypotheses on the written rows (one width, ids ascending) are not yet discharged from '
-        'C07.tableRows, scaled columns are not expanded, and for data / dump files the same composition (plus applyFlags) '
-        'is available only at the level of the numeric table (tableLoad_prop_shape, tableLoad_prop_values); '
-        'unit_roundtrip_error bounds one converted value. POSCAR is proved in closed form (load_dump_roundtrip_poscar).',
+    'load_dump_roundtrip (data, dump, table)': 'one end-to-end statement per format since round 6 (POSCAR closed form; '
+        'load_dump_roundtrip_table_values; load_dump_roundtrip_dump_values for any id order with a caller-supplied column '
+        'table; load_dump_roundtrip_data_values: first pass + atom_style decision + read_atoms with or without image flags + '
+        'Velocities pass). Missing: scaled (box-relative) columns are not expanded - the closed forms speak of columns '
+        'without conversion or with a unit factor; for data files the positions are the printed values plus applyFlags, the '
+        'shift is not expanded against C07.wrap (applyFlags_other: it touches pos only); the hypotheses "one row width" and '
+        '"distinct printed ids" are not discharged from C07.tableRows (the atom count is: dataParts_rows_length); the '
+        'matchprops route of the dump loader (no column table given) is correspondence + statement pin. '
+        'unit_roundtrip_error bounds one converted value.',
     'load_eq_independent_parse': 'proved for POSCAR as one equation (load_eq_independent_parse_poscar: the loader returns '
         'the system C07.parsePoscar describes, on every writer output) and for the dump-file bounds '
         '(dump_bounds_eq_independent: the loader inversion is C07.hiLoOfBBox); for data files, dump tables and tables the '
@@ -169,6 +709,11 @@ PARTIAL = {
     'load_perm_invariant (file level)': 'text-to-system for data files laid out like the writer\'s '
         '(load_perm_invariant_data_file); for dump files, tables and arbitrary extra lines between the rows the statement '
         'is on the rows (load_perm_invariant_table) plus the factorisation through the lines that have terms.',
+    'source tie': 'decision chains, checks, style / column-count decisions, bounding-box inversion, flag index, position '
+        'variants, Cartesian test, POSCAR line numbers, table keys are regenerated and proved equal to the model for all '
+        'inputs (Proofs/C08_Source.lean); the bodies of the branches, the pandas calls, matchprops, read_mass, the table '
+        'reader body are normalised-statement pins (gen_..._pinned), i.e. tied by correspondence + pin, not by a Lean '
+        'definition.',
 }
 RULE = ('every C07 writer case (systems of 1-10 atoms, orthogonal/triclinic cells, all pbc settings, atoms inside/outside/on faces; '
         '"grid" = dyadic and "generic" doubles; all 18 atom styles + hybrids x 8 unit styles; %.Nf / %.Ne formats; dump files '
@@ -235,7 +780,7 @@ MANIFEST = {
             'argument forms, re-dump after in-place edits.',
     'note': 'Trusted: Lean kernel + propext/Classical.choice/Quot.sound; the table extractor; pandas read_csv as the row '
             'selection assumption (re-checked against pandas on every case); the correspondence harness.',
-    'technique': 'Lean 4 theorems over a hand-written model + translator-generated tables + differential correspondence',
+    'technique': 'Lean 4 theorems over a hand-written model + translator-generated tables and reader decision chains (Generated/LoadStyles.lean, Generated/LoadSource.lean, proved equal to the model) + differential correspondence',
 }
 
 EPS = Fraction(1, 2 ** 52)
@@ -1473,6 +2018,10 @@ def gen_case(rng, kind, i):
         c['style_arg'] = 'given' if r < 0.4 else 'none'
         if 'nohint' in c['ops'] and w['style'] != 'atomic' and c['style_arg'] == 'none' and rng.random() < 0.8:
             c['style_arg'] = 'given'
+        # an atom_style argument that is NOT the one of the file (documented ValueError when the file names its style);
+        # drawn from a generator derived from the case so that the main stream of choices is unchanged
+        if 'nohint' not in c['ops'] and random.Random('c08-stylearg %r' % (c['tseed'],)).random() < 0.12:
+            c['style_arg'] = 'other'
         if rng.random() < 0.2:
             nt = (w['natypes'] or w['d']['natypes']) if 'masses' in c['ops'] else max(w['d']['atype']) + (1 if rng.random() < 0.3 else 0)
             c['symbols_arg'] = pick_symbols(rng, nt)
@@ -1485,12 +2034,21 @@ def gen_case(rng, kind, i):
     return c
 
 
+def other_style(style):
+    """an atom_style that differs from `style`: for a hybrid one with the same first sub-style (a comparison of the
+       first words only does not tell them apart), otherwise another plain style"""
+    words = style.split()
+    if words[0] == 'hybrid':
+        return ' '.join(words + ['bond']) if 'bond' not in words else ' '.join(w for w in words if w != 'bond') or 'hybrid'
+    return 'charge' if style != 'charge' else 'atomic'
+
+
 def load_opts(c, extra):
     w = c['w']
     d = w['d']
     if c['kind'] == 'data':
-        return {'pbc': list(d['pbc']), 'units': w['units'], 'style_arg': w['style'] if c['style_arg'] == 'given' else None,
-                'symbols': c['symbols_arg']}
+        sa = {'given': w['style'], 'other': other_style(w['style'])}.get(c['style_arg'])
+        return {'pbc': list(d['pbc']), 'units': w['units'], 'style_arg': sa, 'symbols': c['symbols_arg']}
     if c['kind'] == 'dump':
         return {'units': w['units'], 'pi': extra if c['use_pi'] else None, 'symbols': c['symbols_arg']}
     if c['kind'] == 'table':
@@ -2228,6 +2786,16 @@ def oracle_case(ctx, c0, report, inputs):
     opts = load_opts(c, extra)
     rp = {'op': 'case', 'case': case_replay(c0), 'text': text}
     box = s.box if kind == 'table' else None
+    if kind == 'data' and c.get('style_arg') == 'other':
+        # the file names its atom_style in the Atoms comment: a different atom_style argument is refused (ValueError,
+        # documented), never loaded with the columns of either style
+        bad = real_load(kind, text0, opts, box=box)
+        if bad[0] != 'err:value':
+            got = 'returns a system' if bad[0] == 'ok' else f'raises {bad[1]}'
+            report('data:style-refusal', f"am.load('atom_data', text, atom_style={opts['style_arg']!r}) of a file whose Atoms "
+                                         f"line says {w['style']!r} {got}; the documented ValueError is expected{wus}", rp)
+        c = dict(c, style_arg='given')       # the rest of the case names the style of the file
+        opts = load_opts(c, extra)
     snap = snapshot_args(opts, s) if c.get('alias') else None
     plain = real_load(kind, text0, opts, box=box)
     what = f"am.load('{LOADNAME[kind]}', System.dump('{LOADNAME[kind]}')){wus}"
